@@ -30,11 +30,18 @@ def run(binary, workdir, nl_text=None, stub='m', args=('-AMPL',), script=None, e
     if env_opts:
         for k, v in env_opts.items(): env[k] = v
     if extra_env: env.update(extra_env)
-    try:
-        p = subprocess.run([binary, stubp] + list(args), capture_output=True, env=env, timeout=timeout, cwd=workdir)
-        rc, out, err = p.returncode, p.stdout.decode(errors='replace'), p.stderr.decode(errors='replace')
-    except subprocess.TimeoutExpired as e:
-        rc, out, err = 'timeout', (e.stdout or b'').decode(errors='replace'), (e.stderr or b'').decode(errors='replace')
+    # a run that exceeds the horizon is repeated once, alone in time, with six times the horizon before it is called a hang
+    # (the run is deterministic; on a loaded machine a 50 ms run has been seen to exceed 20 s)
+    for attempt, tmo in enumerate((timeout, timeout * 6)):
+        try:
+            p = subprocess.run([binary, stubp] + list(args), capture_output=True, env=env, timeout=tmo, cwd=workdir)
+            rc, out, err = p.returncode, p.stdout.decode(errors='replace'), p.stderr.decode(errors='replace')
+            break
+        except subprocess.TimeoutExpired as e:
+            rc, out, err = 'timeout', (e.stdout or b'').decode(errors='replace'), (e.stderr or b'').decode(errors='replace')
+            for ext in ('.sol', '.dump'):
+                try: os.remove(stubp + ext)
+                except OSError: pass
     sol = None; dump = None
     if os.path.exists(stubp + '.sol'):
         sol = open(stubp + '.sol', 'rb').read().decode(errors='replace')
